@@ -279,8 +279,19 @@ class Check:
         n = mod.N[tier]
         for i in range(n):
             cases.append(mod.gen(seed, i))
+        exhaustive_n = 0
+        if tier == "thorough" and hasattr(mod, "exhaustive_cases"):
+            ex = mod.exhaustive_cases()
+            exhaustive_n = len(ex)
+            cases += ex
 
         results = self.evaluate(cases, jobs) if cases else []
+        vm = None
+        if tier == "thorough" and getattr(mod, "VM_CROSSCHECK", False):
+            import vmcheck
+            vm = vmcheck.crosscheck([r["case"] for r in results], [r["model"] for r in results])
+            for (c, a, b) in vm["mismatches"]:
+                problems.append(("obligation", f"extraction cross-check: vm_compute and the extracted driver disagree on {c}: {a} vs {b}"))
         for extra in getattr(mod, "extra_checks", lambda seed, tier: [])(seed, tier):
             results.append(extra)
 
@@ -416,6 +427,10 @@ class Check:
             "wall_s": round(time.time() - t0, 2),
             "violations": len([l for l in out_lines if l.startswith("VIOLATION")]),
         }
+        if exhaustive_n:
+            ev["coverage"]["exhaustive_small_scope"] = {"cases": exhaustive_n, "space": getattr(mod, "EXHAUSTIVE_SPACE", ""), "exhaustive": True}
+        if vm is not None:
+            ev["coverage"]["extraction_crosscheck_vm_compute"] = {"cases": vm["checked"], "mismatches": len(vm["mismatches"])}
         if tier == "thorough":
             ev["coverage"]["coqchk_rc"] = info.get("coqchk_rc")
             ev["coverage"]["coqchk_s"] = info.get("coqchk_s")
